@@ -863,7 +863,7 @@ class SessionRun:
 
     def _run(self):
         from earthkit.workflows import Cascade
-        from earthkit.workflows.graph import Graph, Node, deserialise, from_json, serialise, to_json
+        from earthkit.workflows.graph import deserialise, from_json, serialise, to_json
         import dill
         cas = {}          # object id -> Cascade
         model = {}        # object id -> {"g0": term, "ops": [terms], "last": term, "files": [names], "dead": bool, "err": str|None}
